@@ -207,7 +207,7 @@ structure Out where
   values : List Rat
   valuesRow : Option (List Rat)
   valuesCol : Option (List Rat)
-deriving Repr
+deriving Repr, DecidableEq
 
 /-- `_split_vars(shape)` when bipartite -/
 def splitVars (bipartite : Bool) (nRow : Nat) (v : List Rat) : Out :=
